@@ -208,6 +208,8 @@ def arg_py(a):
 def _tstep(t, op, a):
     if op == 'x':
         return t.__star__()
+    if op == 'X':
+        return t.__starstar__()
     return t[a] if op == '[' else getattr(t, a)
 
 
@@ -216,7 +218,7 @@ def _parts(steps):
 
 
 def has_star(steps):
-    return any(s['op'] == 'x' for s in steps)
+    return any(s['op'] in 'xX' for s in steps)
 
 
 def _merged(steps, root=None):
@@ -246,12 +248,12 @@ def spellings(steps):
     out = []
     ops = [s['op'] for s in steps]
     args = [arg_py(s['arg']) for s in steps]
-    if all(o in 'Px' for o in ops) and all(o == 'x' or (isinstance(a, str) and a and '.' not in a and a not in ('*', '**'))
+    if all(o in 'PxX' for o in ops) and all(o in 'xX' or (isinstance(a, str) and a and '.' not in a and a not in ('*', '**'))
                                            for o, a in zip(ops, args)):
-        text = '.'.join('*' if o == 'x' else a for o, a in zip(ops, args))
+        text = '.'.join('*' if o == 'x' else '**' if o == 'X' else a for o, a in zip(ops, args))
         out.append(('dotted', lambda: text, False))
     out.append(('Path', lambda: Path(*_parts(steps)), False))
-    if any(o not in 'Px' for o in ops) and any(o == 'P' for o in ops):
+    if any(o not in 'PxX' for o in ops) and any(o == 'P' for o in ops):
         out.append(('Path-merged', lambda: _merged(steps), False))
     if all(o != 'P' for o in ops):
         out.append(('T', lambda: _chain(steps, T), False))
@@ -526,13 +528,21 @@ def run_reuse(case1, case2, spelling, logging, mode):
 
 
 def _live(h, n0):
-    """Live(c, h) of GlomMutate.tla: new cells nothing pre-existing refers to are garbage"""
-    for c in h[:n0]:
+    """Live(c, h) of GlomMutate.tla: new cells that nothing reachable from the pre-existing cells refers to
+    are garbage and compare equal"""
+    def refs(c):
         for it in c['items']:
             x = it[1] if c['cls'] in ('dict', 'odict', 'obj') else it
-            if isinstance(x, dict) and x.get('k') == 'ref' and x['a'] > n0:
-                return h
-    return h[:n0]
+            if isinstance(x, dict) and x.get('k') == 'ref':
+                yield x['a']
+    seen = set(range(1, n0 + 1))
+    todo = list(seen)
+    while todo:
+        for b in refs(h[todo.pop() - 1]):
+            if b not in seen and 1 <= b <= len(h):
+                seen.add(b)
+                todo.append(b)
+    return [c if a in seen else {'cls': 'garbage', 'items': []} for a, c in enumerate(h, 1)]
 
 
 def conform_clause(case, exp, obs):
@@ -806,9 +816,13 @@ def rand_steps(rng, cells, root, lo, hi, p_valid=0.85, p_star=0.0):
         if j < n - 1 and rng.random() < p_star and cur is not None and cur['k'] == 'ref' \
                 and cells[cur['a'] - 1]['cls'] in ('dict', 'list', 'tuple', 'obj') and cells[cur['a'] - 1]['items']:
             c = cells[cur['a'] - 1]
-            steps.append({'op': 'x', 'arg': {'k': 'none'}})
+            deep = rng.random() < 0.35
+            steps.append({'op': 'X' if deep else 'x', 'arg': {'k': 'none'}})
             kids = [it[1] if c['cls'] in ('dict', 'obj') else it for it in c['items']]
-            cur = rng.choice(kids)
+            cur = rng.choice(kids + [cur]) if deep else rng.choice(kids)
+            continue
+        if j < n - 1 and j > 0 and cur is None and rng.random() < p_star / 2:
+            steps.append({'op': rng.choice('xX'), 'arg': {'k': 'none'}})     # a wildcard after an absent segment
             continue
         st = rand_step(rng, cells, cur, valid=rng.random() < p_valid)
         steps.append(st)
@@ -873,7 +887,7 @@ def rand_case(rng, kind):
             case['val']['v'] = rng.choice([_sv('s'), _sv(None), _sv(0)])
         elif r < 0.55:
             case['val'] = rand_literal(rng)
-        if rng.random() < 0.5 and not has_star(steps):
+        if rng.random() < 0.5:
             case['missing'] = rng.choice(['dict', 'dict', 'obj', 'list'])
             case['facfail'] = rng.choice([0, 0, 0, 1, 2, 3])
     else:
